@@ -272,6 +272,16 @@ def nontrivial(tv):
 def main():
     tier = sys.argv[1] if len(sys.argv) > 1 else "quick"
     run = Run(PID, tier)
+    try:        # every exported trajectory function once by position and by its documented argument names
+        from harness import cas as _cas
+        from cyecca.models import bezier as _bz
+        for _n in dir(_bz):
+            if _n.startswith("derive_"):
+                for _f in (getattr(_bz, _n)() or {}).values():
+                    if isinstance(_f, ca.Function):
+                        _cas.named_selfcheck(_f)
+    except Exception as _ex:     # noqa
+        raise MachineryError(f"named self-check could not run: {_ex}")
     code = Code()
     if "--replay" in sys.argv:
         d = json.load(open(sys.argv[sys.argv.index("--replay") + 1]))["data"]
